@@ -1258,3 +1258,65 @@ func viaField(v ssa.Value, fld *types.Var) bool {
 	}
 	return false
 }
+
+// valAt is a value together with the instruction at which it is committed to a result.
+type valAt struct {
+	Val ssa.Value
+	At  ssa.Instruction
+}
+
+// resultValues resolves result i of a Return through the result cells go/ssa introduces in
+// functions with defer ("defer-spilled returns"): the values stored into the cell that reach the
+// return, each with the store that commits it; otherwise the operand itself at the return.
+func resultValues(r *ssa.Return, i int) []valAt {
+	v := r.Results[i]
+	if u, ok := v.(*ssa.UnOp); ok && u.Op == token.MUL {
+		if al, isAl := u.X.(*ssa.Alloc); isAl {
+			stores, _ := reachingStores(al, u)
+			if len(stores) > 0 {
+				var out []valAt
+				for _, st := range stores {
+					out = append(out, valAt{st.Val, st})
+				}
+				return out
+			}
+		}
+	}
+	return []valAt{{v, r}}
+}
+
+// resultTuples pairs the resolved values of all results of a Return by the committing site: for
+// defer-spilled returns the stores of one `return a, b` statement are adjacent in one block.
+func resultTuples(r *ssa.Return) [][]valAt {
+	n := len(r.Results)
+	if n == 0 {
+		return nil
+	}
+	per := make([][]valAt, n)
+	for i := range r.Results {
+		per[i] = resultValues(r, i)
+	}
+	// group by block of the committing instruction
+	var out [][]valAt
+	for _, first := range per[0] {
+		tuple := []valAt{first}
+		ok := true
+		for i := 1; i < n; i++ {
+			var match *valAt
+			for j := range per[i] {
+				if per[i][j].At.Block() == first.At.Block() {
+					match = &per[i][j]
+				}
+			}
+			if match == nil {
+				ok = false
+				break
+			}
+			tuple = append(tuple, *match)
+		}
+		if ok {
+			out = append(out, tuple)
+		}
+	}
+	return out
+}
